@@ -22,6 +22,10 @@ pub fn exec_topo(input: &Value) -> (Value, Value) {
             e[1].as_array().map(|a| a.iter().filter_map(|x| x.as_str().map(String::from)).collect()).unwrap_or_default();
         g.add_dependencies(k, deps);
     }
+    // which names have a recorded definition is irrelevant to the ordering
+    for d in strs(input, "defs") {
+        g.add_type_definition(d.clone(), std::path::PathBuf::from(format!("src/{}.rs", d)));
+    }
     let types: HashSet<String> = strs(input, "request").into_iter().collect();
     let types_order: Vec<String> = types.iter().cloned().collect();
     let deps_order: Vec<Value> =
@@ -35,10 +39,20 @@ pub fn exec_topo(input: &Value) -> (Value, Value) {
 
 /// op `kahn`: in = {nodes: [names], edges: [[from, to]...]}
 pub fn exec_kahn(input: &Value) -> (Value, Value) {
+    // node kinds and edge kinds do not influence the order: every edge constrains it
+    let kind_of = |n: &str| -> DependencyNodeType {
+        match input["kinds"].get(n).and_then(|x| x.as_u64()).unwrap_or(1) % 5 {
+            0 => DependencyNodeType::Command,
+            1 => DependencyNodeType::Struct,
+            2 => DependencyNodeType::Enum,
+            3 => DependencyNodeType::Type,
+            _ => DependencyNodeType::Module,
+        }
+    };
     let mk = |n: &str| DependencyNode {
         name: n.to_string(),
         path: format!("src/{}.rs", n),
-        node_type: DependencyNodeType::Struct,
+        node_type: kind_of(n),
     };
     let mut r = DependencyResolver::new();
     for n in strs(input, "nodes") {
@@ -48,7 +62,13 @@ pub fn exec_kahn(input: &Value) -> (Value, Value) {
         r.add_dependency(Dependency {
             from: mk(e[0].as_str().unwrap_or("")),
             to: mk(e[1].as_str().unwrap_or("")),
-            dependency_type: DependencyType::Field,
+            dependency_type: match e.get(2).and_then(|x| x.as_u64()).unwrap_or(1) % 5 {
+                0 => DependencyType::Direct,
+                1 => DependencyType::Field,
+                2 => DependencyType::Variant,
+                3 => DependencyType::Import,
+                _ => DependencyType::Generic,
+            },
         });
     }
     let imp = guarded(|| match r.resolve_build_order() {
@@ -75,9 +95,41 @@ fn topo_case(out: &mut Out, n: usize, adj: &[u32], subset: u32, extra_missing: b
 }
 
 fn kahn_case(out: &mut Out, n: usize, edges: &[(usize, usize)], tag: &str) {
+    kahn_case_kinds(out, n, edges, tag, None);
+}
+
+/// `salt`: node kinds (Command/Struct/Enum/Type/Module) and edge kinds (Direct/Field/Variant/Import/Generic) derived
+/// from it; `u64::MAX` = every node a Module, every edge an Import
+fn kahn_case_kinds(out: &mut Out, n: usize, edges: &[(usize, usize)], tag: &str, salt: Option<u64>) {
     let nodes: Vec<String> = (0..n).map(name).collect();
-    let es: Vec<Value> = edges.iter().map(|&(f, t)| json!([name(f), name(t)])).collect();
-    out.case("kahn", json!({"nodes": nodes, "edges": es}), json!({"n": n, "tag": tag}));
+    match salt {
+        None => {
+            let es: Vec<Value> = edges.iter().map(|&(f, t)| json!([name(f), name(t)])).collect();
+            out.case("kahn", json!({"nodes": nodes, "edges": es}), json!({"n": n, "tag": tag}));
+        }
+        Some(sv) => {
+            let all_mod = sv == u64::MAX;
+            let mut kinds = serde_json::Map::new();
+            for i in 0..n {
+                kinds.insert(name(i), json!(if all_mod { 4 } else { (sv / 5u64.pow(i as u32 % 12)) % 5 }));
+            }
+            let es: Vec<Value> = edges.iter().map(|&(f, t)| json!([name(f), name(t), if all_mod { 3 } else { (sv + 3 * f as u64 + t as u64) % 5 }])).collect();
+            out.case("kahn", json!({"nodes": nodes, "edges": es, "kinds": kinds}), json!({"n": n, "tag": tag}));
+        }
+    }
+}
+
+fn topo_case_defs(out: &mut Out, n: usize, adj: &[u32], subset: u32, defs: u32, tag: &str) {
+    let mut graph: Vec<Value> = Vec::new();
+    for i in 0..n {
+        let deps: Vec<String> = (0..n).filter(|j| adj[i] >> j & 1 == 1).map(name).collect();
+        if !deps.is_empty() || i % 2 == 0 {
+            graph.push(json!([name(i), deps]));
+        }
+    }
+    let request: Vec<String> = (0..n).filter(|i| subset >> i & 1 == 1).map(name).collect();
+    let d: Vec<String> = (0..n).filter(|i| defs >> i & 1 == 1).map(name).collect();
+    out.case("topo", json!({"graph": graph, "request": request, "defs": d}), json!({"n": n, "tag": tag}));
 }
 
 pub fn run(out: &mut Out, tier: &str, rng: &mut Rng) {
@@ -99,6 +151,17 @@ pub fn run(out: &mut Out, tier: &str, rng: &mut Rng) {
                 .flat_map(|i| (0..n).filter(move |j| (code >> (i * n + j)) & 1 == 1).map(move |j| (i, j)))
                 .collect();
             kahn_case(out, n, &edges, "exh");
+            if n <= 3 {
+                // the same graphs with every kind of node and edge, and with recorded definitions for every subset of
+                // the nodes (neither influences the order)
+                kahn_case_kinds(out, n, &edges, "exh-kinds", Some(u64::MAX));
+                kahn_case_kinds(out, n, &edges, "exh-kinds", Some(code.wrapping_mul(2654435761) % 100_000));
+                for subset in 1u32..(1 << n) {
+                    for defs in 1u32..(1 << n) {
+                        topo_case_defs(out, n, &adj, subset, defs, "exh-defs");
+                    }
+                }
+            }
         }
     }
     // random graphs up to 12 nodes, dependencies on undefined names, multi-edges for Kahn
@@ -136,5 +199,10 @@ pub fn run(out: &mut Out, tier: &str, rng: &mut Rng) {
             edges.swap(i, j);
         }
         kahn_case(out, n, &edges, "rand");
+        if k % 2 == 0 {
+            let salt = if k % 8 == 0 { u64::MAX } else { rng.below(1_000_000) as u64 };
+            kahn_case_kinds(out, n, &edges, "rand-kinds", Some(salt));
+            topo_case_defs(out, n, &adj, subset, rng.below(1usize << n) as u32, "rand-defs");
+        }
     }
 }
